@@ -149,7 +149,7 @@ Proof.
   - inversion H; subst. rewrite rev_length, skipn_length. cbn [length]. destruct newlines; lia.
   - destruct (parse_continuation line prepend) as [cont|].
     + apply IH in H; [cbn [length] in *; lia| |lia]. cbn [length]. destruct (str_eqb cont [10]); lia.
-    + destruct (any_interrupt types BK_List (line :: r)).
+    + destruct (item_interrupt types (line :: r)).
       * inversion H; subst. rewrite rev_length, skipn_length. cbn [length]. destruct newlines; lia.
       * destruct (parse_marker line) as [[[[? ?] other] ?]|].
         -- destruct (same_marker_type leader other).
